@@ -300,7 +300,8 @@ func (c *specCtx) lookupName(name string) (specVal, bool) {
 	}
 	for _, p := range fn.Params {
 		if p.Name() == name {
-			return specVal{term: vc.value(c.fr, c.st, p), typ: p.Type()}, true
+			// a struct-typed parameter is a struct value: its fields live in the value space
+			return specVal{term: vc.value(c.fr, c.st, p), typ: p.Type(), vspace: isStructLike(p.Type())}, true
 		}
 	}
 	for _, fv := range fn.FreeVars {
